@@ -74,6 +74,23 @@ def oracleTable (key : String) (r : Req) : List Rat → Py (List Int) := fun x =
     | .error _ => .error .other
   | .error _ => .error .other
 
+def errOfName (s : String) : Err :=
+  if s == "ValueError" then .value else if s == "TypeError" then .type else if s == "IndexError" then .index
+  else if s == "LagtimeError" then .lagtime else if s == "AssertionError" then .assertion else .other
+
+/-- stand-in for the eigen-solver oracle (called once): `"oracle": {key: [eigenvalues, eigenvectors]}`, or
+`{key ++ "_err": kind}` when the real solver raised -/
+def oracleEig (key : String) (r : Req) : List (List Rat) → Int → Py (List Rat × List (List Rat)) := fun _ _ =>
+  match r.oracle.getObjVal? key with
+  | .ok j =>
+    match (JCodec.dec j : Except String (List Rat × List (List Rat))) with
+    | .ok v => .ok v
+    | .error _ => .error .other
+  | .error _ =>
+    match r.oracle.getObjVal? (key ++ "_err") with
+    | .ok (Json.str e) => .error (errOfName e)
+    | _ => .error .other
+
 partial def loop (dispatch : Req → Except String Json) (h out : IO.FS.Stream) : IO Unit := do
   let line ← h.getLine
   if line.isEmpty then return ()
